@@ -191,7 +191,7 @@ def record_trace(job):
             res["status"], res["msg"] = "Fail", o[1]
         os.remove(path)
     nl_per_entry = [t.count("\n") for t in _entry_texts(fmt, job["specs"], job["crlf"])]
-    tr = {"tid": job["tid"], "n": len(rows), "K": K, "maxlen": max(lens), "entryLines": nl_per_entry,
+    tr = {"tid": job["tid"], "n": len(rows), "K": K, "maxlen": max(lens), "entryLines": nl_per_entry, "bad": 0,
           "events": _events(res, rows)}
     meta = {"job": {k: job[k] for k in job if k != "dir"}, "msg": res["msg"],
             "observed": [r for c in res["chunks"] for r in c][:50], "expected_n": len(rows), "flen": len(data)}
